@@ -490,7 +490,7 @@ func c12Adapter(r *zsim.Run, w *Redis, a, b *zredis.Server, ctx context.Context)
 		}
 		return true
 	}
-	switch o.Intn(36) {
+	switch o.Intn(37) {
 	case 0:
 		k, v, s := c12KeyFor(o, "Set"), c12Members[o.Intn(7)], 1+o.Intn(20)
 		werr := w.SetEx(k, v, s)
@@ -779,6 +779,24 @@ func c12Adapter(r *zsim.Run, w *Redis, a, b *zredis.Server, ctx context.Context)
 			return err
 		})
 		return check("Pipelined", fmt.Sprint(k1, k2), wres, werr, rres, rerr)
+	case 36:
+		// the members returned are random: what is compared is how many there are (a negative count asks for
+		// exactly that many, with repeats) and that each belongs to the set
+		k, n := c12KeyFor(o, "SRandMember"), zsim.Pick(o, 1, 2, 0, -1, -3, -7, 5, 100)
+		wv, werr := w.SRandMember(k, n)
+		rv, rerr := cl.SRandMemberN(ctx, k, int64(n)).Result()
+		all, _ := cl.SMembers(ctx, k).Result()
+		in := map[string]bool{}
+		for _, m := range all {
+			in[m] = true
+		}
+		for _, m := range wv {
+			if !in[m] {
+				r.Failf("result-differs", "SRandMember(%s,%d) returned %q, which is not a member of the set %v", k, n, m, all)
+				return false
+			}
+		}
+		return check("SRandMember", fmt.Sprint(k, n), len(wv), werr, len(rv), rerr)
 	}
 	return true
 }
